@@ -531,7 +531,7 @@ theorem mem_events_iff (fx : Bool) (w : World) (e : Ev) :
 theorem protoGuard_iff (fx : Bool) (r : Route) (l : Listener) :
     protoGuard fx r l = true ↔ (fx = true → ProtoCompat r l) := by
   unfold protoGuard ProtoCompat
-  cases fx <;> cases r.tcp <;> simp
+  cases fx <;> cases r.tcp <;> simp [or_assoc]
 
 theorem mem_ruleEvents_path (r : Route) (l : Listener) (rule : Rule) (b : Backend) (d : PathDecl) :
     Ev.path d ∈ ruleEvents r l rule b ↔
@@ -560,5 +560,63 @@ theorem mkBackend_id {w : World} {r : Route} {i : Nat} {rule : Rule} {b : Backen
   · cases h
   · cases h; exact ⟨rfl, rfl⟩
 
+
+
+/-! ### C16 `zero_iff` (copied from Props/C16.lean so that C10 depends only on Model/C16.lean;
+the statement is about `C16.rebalance`, the model validated by the C16 correspondence) -/
+namespace W16
+open HapVerif.C16
+
+theorem f32_zero : f32 0 = 0 := by simp [f32]
+
+theorem truncI_zero : truncI 0 = 0 := by decide +kernel
+theorem rat_zero_div (x : Rat) : 0 / x = 0 := by rw [Rat.div_def, Rat.zero_mul]
+
+
+theorem newWeight_zero_iff (rnd : Rat → Rat) (h0 : rnd 0 = 0) (lcm g : Int) (wfm wf : Rat)
+    (cl : Cluster) (hw : 0 ≤ cl.weight) (w : Int)
+    (h : newWeight rnd lcm g wfm wf cl = some w) : w = 0 ↔ cl.weight = 0 := by
+  unfold newWeight at h
+  split at h
+  · cases h
+  · by_cases hz : cl.weight = 0
+    · simp [hz, h0, Rat.mul_zero, rat_zero_div, truncI_zero] at h
+      simp [hz]; omega
+    · have hpos : cl.weight > 0 := by omega
+      simp [hpos] at h
+      split at h <;> simp at h <;> (split at h <;> omega)
+
+theorem mem_zip_self {α} {l : List α} {a b : α} (h : (a, b) ∈ l.zip l) : a = b ∧ a ∈ l := by
+  induction l with
+  | nil => simp at h
+  | cons x xs ih =>
+    simp only [List.zip_cons_cons, List.mem_cons, Prod.mk.injEq] at h
+    rcases h with ⟨h1, h2⟩ | h
+    · subst h1 h2; simp
+    · have := ih h; exact ⟨this.1, List.mem_cons_of_mem _ this.2⟩
+
+theorem mem_zip_map {α β} {l : List α} {f : α → β} {a : α} {b : β}
+    (h : (a, b) ∈ l.zip (l.map f)) : a ∈ l ∧ b = f a := by
+  rw [List.zip_map_right] at h
+  simp only [List.mem_map, Prod.map, id, Prod.mk.injEq] at h
+  obtain ⟨⟨x, y⟩, hxy, h1, h2⟩ := h
+  have := mem_zip_self hxy
+  simp only at h1 h2
+  obtain ⟨e, hx⟩ := this
+  subst e h1; exact ⟨hx, h2.symm⟩
+
+theorem zero_iff (cls : List Cluster) (initial : Int) (hw : ∀ c ∈ cls, 0 ≤ c.weight)
+    (c : Cluster) (w : Int) (hm : (c, some w) ∈ cls.zip (rebalance cls initial)) :
+    w = 0 ↔ c.weight = 0 := by
+  unfold rebalance rebalanceWith at hm
+  simp only at hm
+  split at hm
+  · have := (mem_zip_map hm).2; simp at this; omega
+  · split at hm
+    · have := (mem_zip_map hm).2; simp at this; omega
+    · have := mem_zip_map hm
+      exact newWeight_zero_iff f32 f32_zero _ _ _ _ c (hw c this.1) w this.2.symm
+
+end W16
 
 end HapVerif.C10
